@@ -7,7 +7,7 @@
    reordering across rounds) costs budget like a loss or an injection.
 
    The transition relation is selected by the constant Rel: "rfc" = RFC 5880 6.8.6 (the property),
-   "code" = the relation found in router/bfd before the repair (received AdminDown => AdminDown),
+   "code" = the relation router/bfd implements - open known finding D4 - (received AdminDown => AdminDown),
    kept to SHOW the liveness counterexample at design level (BFDMC.code.cfg, expected to fail).  *)
 EXTENDS BFDOps, FiniteSets, TLC
 
@@ -15,7 +15,7 @@ CONSTANTS Rel,        \* "rfc" | "code"
           Budget,     \* number of adversarial actions (lose / hold / inject)
           Foreign,    \* BOOLEAN: injected packets may also carry a My Discriminator nobody owns
           Track,      \* "rfc": bfd.RemoteDiscr := My Discriminator of every accepted packet (RFC 5880 6.8.6)
-                      \* "code": only while it is zero (router/bfd before the repair)
+                      \* "code": only while it is zero (router/bfd before repair 3412c17)
           Demux       \* "link": a session takes every packet of its link (as the router does)
                       \* "strict": RFC 5880 6.8.6 - a non-zero Your Discriminator selects the session;
                       \*           if it is not the receiver's the packet is discarded
